@@ -153,3 +153,16 @@ def analysis_or_fail(ctx, rule, body):
         ctx.unproved(rule, body.fid, 'function has no Ok exit the analysis can reach', ctx.where(body))
         return None
     return an
+
+
+def plain_iteration(cnd):
+    """is `cnd` the decision "the source collection has another element" of a plain loop over a slice / range — i.e. the
+    discriminant of next() with NO selecting adaptor (filter, take_while, skip, ...) in between?"""
+    return cnd[0] == 'discr' and cnd[1][0] == 'maybe' and len(cnd[1]) == 2 and 'iterpos' in repr(cnd[1][1])
+
+
+def selected_iteration(cnd):
+    """the adaptors when `cnd` is the discriminant of next() behind selecting adaptors, else None"""
+    if cnd[0] == 'discr' and cnd[1][0] == 'maybe' and len(cnd[1]) == 3 and cnd[1][2][0] == 'adaptors':
+        return cnd[1][2][1:]
+    return None
